@@ -14,6 +14,9 @@ pub(crate) struct LoopState {
     // tells us if we need to end capturing.
     pub(crate) current_recursion_jump: Option<(u32, bool)>,
     pub(crate) object: Arc<Loop>,
+    // set once the loop produced an item; leaving the first iteration with
+    // `break` must not look like a loop that did not iterate.
+    did_iterate: bool,
 
     // Depending on if adjacent_loop_items is enabled or not, the iterator
     // is stored either on the loop state or in the loop object.  This is
@@ -41,6 +44,7 @@ impl LoopState {
         LoopState {
             with_loop_var,
             current_recursion_jump,
+            did_iterate: false,
             object: Arc::new(Loop {
                 idx: AtomicUsize::new(!0usize),
                 len,
@@ -56,19 +60,17 @@ impl LoopState {
     }
 
     pub fn did_not_iterate(&self) -> bool {
-        self.object.idx.load(Ordering::Relaxed) == 0
+        !self.did_iterate
     }
 
     pub fn next(&mut self) -> Option<Value> {
         self.object.idx.fetch_add(1, Ordering::Relaxed);
         #[cfg(feature = "adjacent_loop_items")]
-        {
-            self.object.iter.lock().unwrap().next()
-        }
+        let rv = self.object.iter.lock().unwrap().next();
         #[cfg(not(feature = "adjacent_loop_items"))]
-        {
-            self.iter.next()
-        }
+        let rv = self.iter.next();
+        self.did_iterate |= rv.is_some();
+        rv
     }
 }
 
